@@ -246,9 +246,9 @@ pub fn gen_text(r: &mut Rng, cfg: &GenCfg) -> String {
 }
 
 pub fn gen_tree(r: &mut Rng, cfg: &GenCfg, pool: &Pool) -> ANode {
-    // one tree in sixteen is LARGE in one dimension (depth, width, attributes and declarations per element, prefixes in scope,
+    // one tree in ten is LARGE in one dimension (depth, width, attributes and declarations per element, prefixes in scope,
     // length of a text or attribute value): inline buffers, depth caps and batch sizes of 8 … 64 are then exceeded
-    if r.chance(1, 16) {
+    if r.chance(1, 10) {
         return gen_big(r, cfg, pool);
     }
     let mut budget = 2 + r.below(cfg.max_nodes);
@@ -362,7 +362,8 @@ fn gen_elem(r: &mut Rng, cfg: &GenCfg, pool: &Pool, depth: usize, budget: &mut u
 /// xml:space, names in namespaces), always a document around one element when cfg.doc_root > 0, else the element
 pub fn gen_big(r: &mut Rng, cfg: &GenCfg, pool: &Pool) -> ANode {
     let plain = |i: usize| pool.names[(i * 4) % pool.names.len().max(1)];   // a no-namespace element name (every fourth when ns_names)
-    let name_at = |r: &mut Rng, i: usize| if cfg.ns_names && cfg.decls { *r.pick(&pool.names) } else { plain(i) };
+    // (mostly names in no namespace: a name in a namespace needs a declaration, and the callers leave one in ten undeclared)
+    let name_at = |r: &mut Rng, i: usize| if cfg.ns_names && cfg.decls && r.chance(1, 5) { *r.pick(&pool.names) } else { plain(i) };
     let long_text = |r: &mut Rng, n: usize| -> String {
         let alphabet: &[char] = if cfg.special_text { &['a', '&', '<', '>', '"', '\'', '\r', '\n', '\t', ']', '\u{e9}', 'b'] } else { &['h', 'i', 'j', ' '] };
         let mut s: String = (0..n).map(|_| *r.pick(alphabet)).collect();
@@ -370,11 +371,13 @@ pub fn gen_big(r: &mut Rng, cfg: &GenCfg, pool: &Pool) -> ANode {
         if s.trim().is_empty() { s.push('t'); }
         s
     };
-    let el = match r.below(5) {
-        0 => {
+    let el = match r.below(6) {
+        0 | 5 => {
             // deep: 18 … 30 levels; text (and white space, when the configuration draws it) at every level; xml:space here and there;
             // with declarations on, every level declares another prefix and one of the outermost levels re-declares an inner one
             let depth = 18 + r.below(13);
+            // half of the deep trees have element-only content above the innermost level (what a pretty printer indents)
+            let textual = r.chance(1, 2);
             let mut n = ANode::Elem { name: plain(0), ns: vec![], attrs: vec![], kids: vec![ANode::Text("x".into())] };
             for i in 0..depth {
                 let mut ns = vec![];
@@ -384,13 +387,13 @@ pub fn gen_big(r: &mut Rng, cfg: &GenCfg, pool: &Pool) -> ANode {
                     if i + 3 >= depth && r.chance(1, 2) { ns.push((pool.extra_prefixes[r.below(12)], pool.extra_uris[12 + r.below(12)])); }
                     if ns.len() == 2 && ns[0].0 == ns[1].0 { ns.pop(); }
                 }
-                if cfg.xml_space > 0 && r.chance(1, 5) { attrs.push((0, r.pick(&["preserve", "default"]).to_string())); }
+                if cfg.xml_space > 0 && textual && r.chance(1, 3) { attrs.push((0, r.pick(&["preserve", "default"]).to_string())); }
                 let mut kids = vec![];
-                if cfg.ws_text > 0 && r.chance(1, 2) { kids.push(ANode::Text(" \n".into())); } else if r.chance(1, 3) { kids.push(ANode::Text("l".into())); }
+                if cfg.ws_text > 0 && textual && r.chance(1, 2) { kids.push(ANode::Text(" \n".into())); } else if textual && r.chance(1, 3) { kids.push(ANode::Text("l".into())); }
                 kids.push(n);
-                if cfg.ws_text > 0 && r.chance(1, 2) { kids.push(ANode::Text("\n ".into())); } else if r.chance(1, 3) { kids.push(ANode::Text("r".into())); }
+                if cfg.ws_text > 0 && textual && r.chance(1, 2) { kids.push(ANode::Text("\n ".into())); } else if textual && r.chance(1, 3) { kids.push(ANode::Text("r".into())); }
                 if r.chance(1, 6) { kids.push(ANode::Elem { name: plain(i), ns: vec![], attrs: vec![], kids: vec![] }); }
-                n = ANode::Elem { name: name_at(r, i), ns, attrs, kids };
+                n = ANode::Elem { name: if textual { name_at(r, i) } else { plain(i) }, ns, attrs, kids };
             }
             n
         }
